@@ -408,7 +408,8 @@ def r6(ctx):
                         rem = [ev for bid2 in body for ev in d.blocks[bid2].events if ev.kind == 'CALL' and ev.callee in ('qb_list_del', 'qb_loop_level_item_del', 'free')]
                         unsafe = []
                         for r in rem:
-                            removed = {root_var(x)['n'] for x in r.args if root_var(x)}
+                            rargs = r.args[1:] if r.callee == 'qb_loop_level_item_del' else r.args     # arg 0 is the level, not the node
+                            removed = {root_var(x)['n'] for x in rargs if root_var(x)}
                             hits2, _e2, _n2 = d.search(('after', r), goal=lambda ev: ev.kind == 'LOAD' and last_field(ev.e) and last_field(ev.e)[1] == 'next' and
                                                        root_var(ev.e) and root_var(ev.e)['n'] in removed and ev.blk in body,
                                                stop=lambda ev: ev.kind == 'STORE' and unwrap(ev.lhs).get('k') == 'var' and unwrap(ev.lhs)['n'] in removed)
